@@ -6,6 +6,7 @@ mod c13r;
 mod ioerr;
 mod sock;
 mod spans;
+mod seqt;
 mod c16;
 mod c17;
 mod c19;
@@ -148,6 +149,25 @@ fn main() {
                 .collect();
             write_cases(&out.expect("--out"), &cases);
         }
+        ("seqt", "gen") => {
+            let mut rng = Rng::new(seed);
+            let mut w = open_out(&out);
+            for _ in 0..count {
+                writeln!(w, "{}", seqt::show(&seqt::gen(&mut rng))).unwrap();
+            }
+        }
+        ("seqt", "sweep") => {
+            let mut w = open_out(&out);
+            seqt::sweep(|s| writeln!(w, "{}", seqt::show(&s)).unwrap());
+        }
+        ("seqt", "run") => {
+            let cases: Vec<Case> = read_lines(&input)
+                .iter()
+                .filter_map(|l| seqt::parse(l))
+                .map(|s| seqt::to_case(&s))
+                .collect();
+            write_cases(&out.expect("--out"), &cases);
+        }
         ("cli", "gen") => {
             let bias = cli::bias_of(&arg(&args, "--prop").unwrap_or_default());
             let mut rng = Rng::new(seed);
@@ -160,6 +180,8 @@ fn main() {
             let mut w = open_out(&out);
             if arg(&args, "--family").as_deref() == Some("volume") {
                 cli::volume(|s| writeln!(w, "{}", cli::show(&s)).unwrap());
+            } else if arg(&args, "--family").as_deref() == Some("midvolume") {
+                cli::midvolume(|s| writeln!(w, "{}", cli::show(&s)).unwrap());
             } else {
                 let len: usize = arg(&args, "--len").and_then(|s| s.parse().ok()).unwrap_or(4);
                 cli::sweep(len, |s| writeln!(w, "{}", cli::show(&s)).unwrap());
